@@ -412,7 +412,7 @@ def shard(sh: Shard, seed, wseed, regime, n1, n2):
 
 def main(tier, seed):
     run = Run("C06", tier, seed, "exploration")
-    n1, n2 = (12, 3) if tier == "quick" else (120, 30)
+    n1, n2 = (16, 4) if tier == "quick" else (400, 100)
     regs = ["B", "J", "H", "J"]
     jobs = [{"seed": seed, "wseed": i, "regime": regs[i % 4], "n1": n1, "n2": n2} for i in range(NCPU)]
     run.absorb(run_shards("checks.c06", "shard", jobs, timeout=3000))
